@@ -757,9 +757,15 @@ def check_c20(run):
     fams = []
     suffixes = ["", "@h/", "/x?q#f", "]/"]
     for i, o in enumerate(pumps):
-        for sfx in suffixes if not q else suffixes[:3]:
-            fams.append({"name": "pump:%s|%s|%s%s" % (from_cps(o["p"]), from_cps(o["u"]), sfx, " base" if o["b"] else ""), "prefix": o["p"], "unit": o["u"], "suffix": cps(sfx),
-                         "base": o["b"][0] if o["b"] else [], "op": "parse"})
+        for si, sfx in enumerate(suffixes if not q else suffixes[:3]):
+            f = {"name": "pump:%s|%s|%s%s" % (from_cps(o["p"]), from_cps(o["u"]), sfx, " base" if o["b"] else ""), "prefix": o["p"], "unit": o["u"], "suffix": cps(sfx),
+                 "base": o["b"][0] if o["b"] else [], "op": "parse"}
+            if not q:
+                # thorough enumerates ~5000 pump classes x 4 suffixes: allocation growth for all of them up to n = 2048 -> 8192, CPU growth
+                # (8192 -> 32768 repetitions) for the first suffix of each class; the named / two-phase / API families below get the full measures
+                f["maxn"] = 2048
+                f["cpun"] = 8192 if si == 0 else -1
+            fams.append(f)
     # families named by the property text, and API-level ones
     named = [("many-at", "http://", "@", "h/"), ("long-user", "http://", "u", "@h/"), ("long-password", "http://u:", "p", "@h/"), ("long-opaque-host", "x://", "h", "/"),
              ("long-domain", "http://", "a.", "b/"), ("many-segments", "http://h/", "a/", ""), ("many-slashes", "http://h/", "/", ""), ("dot-segments", "http://h/", "a/../", ""),
@@ -1003,18 +1009,23 @@ def check_c18(run):
     run.build_harness()
     run.selftest()
     q = run.tier == "quick"
-    gf = canon_family(run, "classes", "class", 2 if q else 3, False)
-    gf.names = ["a", "b"]          # two distinct non-empty names: the order of the parameters matters for sorting profiles
-    gf.maxpairs = 2
-    if q:
-        gf.maxsegs = 1
-        gf.creds, gf.hosts, gf.values = gf.creds[:1], gf.hosts[:1], gf.values[:1]
-    mod = gf.write(run.scratch)
     profs = ["GoogleSafeBrowsing", "Semantic", "canon:repeated_decode", "WhatWg", "WhatWgSortQuery", "canon:remove_port+sort_keys", "canon:remove_fragment+sort_param+repeated_decode"]
-    bad, n = run.tlc_events(mod, gf.name, "class", cfg=mod + ".cfg", chunks=14, events_args=["--names", ",".join(profs)])
-    run.samples.append("[classes] %d class events: every abstract URL of the grammar x all combinations of up to %d variations x %d profiles" % (n, gf.k, len(profs)))
-    absorb_events(run, bad, gf.name)
-    run.distinct += n
+    # a class event holds ALL spellings of one abstract URL reachable by up to k variations. quick: k = 2 on a small grammar; thorough: k = 3 on that
+    # grammar and k = 2 on a grammar 16 times larger (TLC needs ~0.5 s per abstract URL at k = 3, ~0.1 s at k = 2)
+    plans = [("classes", 2, True)] if q else [("classes_k3", 3, True), ("classes_k2", 2, False)]
+    for name, k, small in plans:
+        gf = canon_family(run, name, "class", k, False)
+        gf.names = ["a", "b"]          # two distinct non-empty names: the order of the parameters matters for sorting profiles
+        gf.maxpairs = 2
+        gf.values = gf.values[:1]
+        if small:
+            gf.maxsegs = 1
+            gf.creds, gf.hosts = gf.creds[:1], gf.hosts[:1]
+        mod = gf.write(run.scratch)
+        bad, n = run.tlc_events(mod, gf.name, "class", cfg=mod + ".cfg", chunks=14, events_args=["--names", ",".join(profs)], timeout=1800)
+        run.samples.append("[%s] %d class events: every abstract URL of the grammar x all combinations of up to %d variations x %d profiles" % (gf.name, n, gf.k, len(profs)))
+        absorb_events(run, bad, gf.name)
+        run.distinct += n
     run.assumptions += ["classes that use escapes or an empty fragment are demanded only of GoogleSafeBrowsing, Semantic and profiles with repeated percent-decoding; "
                         "classes built from differences the standard itself normalises are demanded of every profile (and proved of the specification by TLC: StdClassInv)"]
     return run.finish("model_checking", "TLC enumerates abstract URLs of the ordinary-web-URL grammar and, for each, the class of all spellings obtained by up to 2-3 variations "
